@@ -77,6 +77,8 @@ func coqEvents(evs []cev) string {
 			s[i] = "EvEnd " + kit.Z(e.T) + " " + kit.Z(e.V)
 		case "ret":
 			s[i] = "EvRet " + kit.Z(e.T) + " " + kit.Z(e.V)
+		case "ctx":
+			s[i] = "EvCtx " + kit.Z(e.T)
 		}
 	}
 	return kit.List(s)
@@ -175,6 +177,12 @@ func concCases(run *kit.Run) []Case {
 				n = r.Range(1, 4)
 			}
 			cs = append(cs, Case{Kind: "conc", Conc: &Conc{What: "launch", Impl: w.name, N: n}})
+			if !w.lazy {
+				// M = 1: a wait with an already-expired context first; 2: with a soon-expiring one; 3: concurrent waiters with mixed contexts
+				for mode := 1; mode <= 3; mode++ {
+					cs = append(cs, Case{Kind: "conc", Conc: &Conc{What: "launch", Impl: w.name, N: n, M: mode}})
+				}
+			}
 		}
 	}
 	return cs
@@ -207,7 +215,7 @@ func execConc(run *kit.Run, c Case, verbose bool) {
 	case "lock":
 		fails, evs, info = concLock(cc.Impl, cc.K, cc.M)
 	case "launch":
-		fails, evs, info = concLaunch(cc.Impl, cc.N)
+		fails, evs, info = concLaunch(cc.Impl, cc.N, cc.M)
 	default:
 		panic("bad concurrent scenario " + cc.What)
 	}
@@ -632,10 +640,14 @@ type waiterSpec struct {
 	seenE bool  // the error handler passed to start must have seen the body's error before the waiter returns
 }
 
+// seeErr counts deliveries of the background execution's own error (e7); a waiter's context error is not one
 func seeErr(seen *atomic.Int64) fun.Handler[error] {
 	return func(err error) {
-		if err != nil {
-			seen.Add(1)
+		for _, l := range leaves(err) {
+			if l == 107 {
+				seen.Add(1)
+				return
+			}
 		}
 	}
 }
@@ -729,7 +741,7 @@ func specByName(name string) waiterSpec {
 	panic("unknown waiter " + name)
 }
 
-func concLaunch(name string, n int) (fails []fail, evs []cev, info string) {
+func concLaunch(name string, n int, mode int) (fails []fail, evs []cev, info string) {
 	spec := specByName(name)
 	bad := func(cls, f string, a ...any) {
 		fails = append(fails, fail{"C15:" + name + ":" + cls, fmt.Sprintf(f, a...)})
@@ -737,12 +749,20 @@ func concLaunch(name string, n int) (fails []fail, evs []cev, info string) {
 	if !spec.multi {
 		n = 1
 	}
+	if spec.lazy {
+		mode = 0
+	}
 	rc := &recorder{}
 	var started, finished atomic.Int64
 	var seen atomic.Int64
 	release := make([]chan struct{}, n)
 	for i := range release {
 		release[i] = make(chan struct{})
+	}
+	releaseAll := func() {
+		for _, ch := range release {
+			close(ch)
+		}
 	}
 	body := func(ctx context.Context) (int64, error) {
 		idx := started.Add(1) - 1
@@ -757,42 +777,99 @@ func concLaunch(name string, n int) (fails []fail, evs []cev, info string) {
 	}
 	ctx, cancel := context.WithCancel(context.Background())
 	defer cancel()
-	var waiter func(context.Context) (int64, error)
+	waiter := spec.start(ctx, body, n, &seen)
 	if !spec.lazy {
-		waiter = spec.start(ctx, body, n, &seen)
 		if !waitFor(func() bool { return started.Load() >= int64(n) }) {
 			bad("not-started", "only %d of %d background executions started within %v", started.Load(), n, deadline)
-			for _, ch := range release {
-				close(ch)
-			}
+			releaseAll()
 			return fails, rc.sorted(), "not started"
 		}
-	} else {
-		waiter = spec.start(ctx, body, n, &seen)
 	}
-	// the background executions are running (blocked on the driver's channels); now call the waiter
-	var finishedAtReturn, seenAtReturn int64
-	var gotV int64
-	var gotE error
-	waiterDone := make(chan struct{})
-	go func() {
-		rc.rec("call", 0, 0)
-		gotV, gotE = waiter(context.Background())
-		finishedAtReturn = finished.Load() // read right after the waiter returned
-		seenAtReturn = seen.Load()
-		rc.rec("ret", 0, 0)
-		close(waiterDone)
-	}()
+	// the background executions are running, parked on the driver's channels
+
+	// one wait: returns what the waiter reported and how many background executions had finished when it returned
+	type waitRes struct {
+		v        int64
+		err      error
+		finished int64
+		seen     int64
+		done     chan struct{}
+	}
+	wait := func(tid int64, wctx context.Context, expires bool) *waitRes {
+		r := &waitRes{done: make(chan struct{})}
+		go func() {
+			rc.rec("call", tid, 0)
+			r.v, r.err = waiter(wctx)
+			r.finished = finished.Load() // read right after the waiter returned
+			r.seen = seen.Load()
+			if expires && r.finished < int64(n) {
+				rc.rec("ctx", tid, 0)
+			} else {
+				rc.rec("ret", tid, 0)
+			}
+			close(r.done)
+		}()
+		return r
+	}
+	earlyClass := "waiter-early"
+	var live []*waitRes
+	switch mode {
+	case 1, 2:
+		// wait #1 gives up on its own context while the background execution is still parked ...
+		earlyClass = "returns-early-after-timeout"
+		var c1 context.Context
+		var cancel1 context.CancelFunc
+		if mode == 1 {
+			c1, cancel1 = context.WithCancel(context.Background())
+			cancel1()
+		} else {
+			c1, cancel1 = context.WithTimeout(context.Background(), 3*time.Millisecond)
+		}
+		w1 := wait(0, c1, true)
+		ok := waitChan(w1.done)
+		cancel1()
+		if !ok {
+			bad("ignores-context", "a wait whose own context had ended did not return within %v", deadline)
+			releaseAll()
+			return fails, rc.sorted(), "wait #1 stuck"
+		}
+		// ... wait #2, with a live context, must block until the driver releases the execution and then deliver its result
+		live = append(live, wait(1, context.Background(), false))
+	case 3:
+		earlyClass = "returns-early-after-timeout"
+		var timed []*waitRes
+		var cancels []context.CancelFunc
+		for tid := int64(0); tid < 4; tid++ {
+			if tid%2 == 1 {
+				c1, cancel1 := context.WithTimeout(context.Background(), 2*time.Millisecond)
+				cancels = append(cancels, cancel1)
+				timed = append(timed, wait(tid, c1, true))
+			} else {
+				live = append(live, wait(tid, context.Background(), false))
+			}
+		}
+		for _, w := range timed {
+			if !waitChan(w.done) {
+				bad("ignores-context", "a wait whose own context had ended did not return within %v", deadline)
+				releaseAll()
+				return fails, rc.sorted(), "timed wait stuck"
+			}
+		}
+		for _, c := range cancels {
+			c()
+		}
+		live = append(live, wait(4, context.Background(), false)) // one more live wait after the timed-out ones
+	default:
+		live = append(live, wait(0, context.Background(), false))
+	}
 	if spec.lazy {
 		if !waitFor(func() bool { return started.Load() >= int64(n) }) {
 			bad("not-started", "only %d of %d background executions started within %v", started.Load(), n, deadline)
-			for _, ch := range release {
-				close(ch)
-			}
+			releaseAll()
 			return fails, rc.sorted(), "not started"
 		}
 	}
-	time.Sleep(3 * grace)
+	time.Sleep(3 * grace) // gives a defective waiter the time to return; not evidence
 	for i := 0; i < n; i++ {
 		close(release[i])
 		waitFor(func() bool { return finished.Load() >= int64(i+1) })
@@ -800,32 +877,47 @@ func concLaunch(name string, n int) (fails []fail, evs []cev, info string) {
 			time.Sleep(grace)
 		}
 	}
-	if !waitChan(waiterDone) {
-		bad("waiter-stuck", "the waiter did not return within %v of the background execution finishing", deadline)
-		return fails, rc.sorted(), "stuck"
+	minFinished := int64(n)
+	gotV, gotE, gotSeen := false, false, false
+	for _, w := range live {
+		if !waitChan(w.done) {
+			bad("waiter-stuck", "the waiter did not return within %v of the background execution finishing", deadline)
+			return fails, rc.sorted(), "stuck"
+		}
+		if w.finished < minFinished {
+			minFinished = w.finished
+		}
+		if w.v == spec.wantV {
+			gotV = true
+		}
+		for _, l := range leaves(w.err) {
+			if l == spec.wantE {
+				gotE = true
+			}
+		}
+		if w.seen >= 1 {
+			gotSeen = true
+		}
 	}
-	if finishedAtReturn < int64(n) {
-		bad("waiter-early", "the waiter returned when %d of %d background executions had finished", finishedAtReturn, n)
+	if minFinished < int64(n) {
+		if mode == 0 {
+			bad(earlyClass, "the waiter returned when %d of %d background executions had finished", minFinished, n)
+		} else {
+			bad(earlyClass, "after another wait had given up on its own context, a wait with a live context returned when %d of %d background executions had finished", minFinished, n)
+		}
 	} else {
-		if spec.wantV != 0 && gotV != spec.wantV {
-			bad("result", "the waiter reported value %d, the background execution produced %d", gotV, spec.wantV)
+		// the result reaches (at least one of) the live waiters
+		if spec.wantV != 0 && !gotV {
+			bad("result", "no waiter reported the value %d the background execution produced", spec.wantV)
 		}
-		if spec.wantE != 0 {
-			ok := false
-			for _, l := range leaves(gotE) {
-				if l == spec.wantE {
-					ok = true
-				}
-			}
-			if !ok {
-				bad("result", "the waiter reported %v, the background execution returned e7", gotE)
-			}
+		if spec.wantE != 0 && !gotE {
+			bad("result", "no waiter reported the error e7 the background execution returned")
 		}
-		if spec.seenE && seenAtReturn < 1 {
+		if spec.seenE && !gotSeen {
 			bad("result", "the error handler had not seen the background execution's error when the waiter returned")
 		}
 	}
-	return fails, rc.sorted(), fmt.Sprintf("bodies=%d finished-at-waiter-return=%d", n, finishedAtReturn)
+	return fails, rc.sorted(), fmt.Sprintf("mode=%d bodies=%d finished-at-waiter-return=%d", mode, n, minFinished)
 }
 
 // ---------------------------------------------------------------- Limit(n): exact count under high contention
@@ -896,11 +988,12 @@ func concLimitStress(impl string, K, n, c, rounds int) (fails []fail, info strin
 			} else {
 				over++
 			}
-			if d := int(want - got); d > worst || -d > worst {
+			d := int(want - got)
+			if d < 0 {
+				d = -d
+			}
+			if d > worst {
 				worst = d
-				if worst < 0 {
-					worst = -worst
-				}
 			}
 		}
 		// quiescent: two more calls execute iff the limit has not been reached
